@@ -14,7 +14,7 @@ AST (python tuples)
               ("call", name, [args]) ("selfcall", [args]) ("list", [elems]) ("index", e, int | varname)
               ("field", obj, name) ("mcall", obj, method, [args]) ("is", a, b)        class instances: ("call", ClassName, [ctor args])
   statement : ("class", name, [(field, type)], [(ctor param, type)], ctor body, [(method, [(param, type)], rettype|None, body)])
-              ("setfield", obj, field, expr)  ("setindex", list, int | varname, expr)  ("opindex", list, int | varname, op, expr)
+              ("setfield", obj, field, expr)  ("opfield", obj, field, op, expr)  ("setindex", list, int | varname, expr)  ("opindex", list, int | varname, op, expr)
               list built-ins: ("mcall", list, "len" | "push" | "remove" | "clear" | "reverse" | "clone" | "join", [args])
 
 Semantics (what the language prescribes; sources: README, compiler/src/tests/*.rs):
@@ -193,6 +193,12 @@ class Interp:
                 raise Unsupported("index assignment into a non-list")
             idx = self.pick_index(lst, idx)
             lst.items[idx] = v if k == "setindex" else arith(o, st[3], lst.items[idx], v)
+        elif k == "opfield":
+            # `obj.f op= e`: the value first, then the target object (evaluated once)
+            v = self.expr(st[4], scopes, outer, me)
+            ob = self.expr(st[1], scopes, outer, me)
+            c = self.field_cell(ob, st[2])
+            c.v = arith(o, st[3], c.v, v)
         elif k == "setfield":
             # `obj.f = e`: the value is evaluated before the target object
             v = self.expr(st[3], scopes, outer, me)
@@ -475,6 +481,8 @@ def rstmts(stmts, ind, inputs=None):
             out.append(t + "}")
         elif k == "setfield":
             out.append("%s%s.%s = %s" % (t, rrecv(st[1], inputs), st[2], rexpr(st[3], inputs)))
+        elif k == "opfield":
+            out.append("%s%s.%s %s= %s" % (t, rrecv(st[1], inputs), st[2], st[3], rexpr(st[4], inputs)))
         elif k == "setindex":
             out.append("%s%s[%s] = %s" % (t, rexpr(st[1], inputs), st[2], rexpr(st[3], inputs)))
         elif k == "opindex":
